@@ -687,7 +687,10 @@ func TestWireModelRejects(t *testing.T) {
 		{"window exceeded", func(m *[2][]Msg) { m[0][2].Val = 5 }, "exceeds the receive window"},
 		{"increment beyond data", func(m *[2][]Msg) { m[1][1].Val = 6 }, "exceed the data received"},
 		{"data before accept", func(m *[2][]Msg) { m[1][0].First, m[1][0].Last = 3, 3 }, "not established"},
-		{"data after close-write", func(m *[2][]Msg) { m[0][3], m[0][2] = m[0][2], m[0][3]; m[0][2].First, m[0][2].Last, m[0][3].First, m[0][3].Last = 5, 5, 6, 6 }, "after close-write"},
+		{"data after close-write", func(m *[2][]Msg) {
+			m[0][3], m[0][2] = m[0][2], m[0][3]
+			m[0][2].First, m[0][2].Last, m[0][3].First, m[0][3].Last = 5, 5, 6, 6
+		}, "after close-write"},
 		{"close twice", func(m *[2][]Msg) { m[0] = append(m[0], mk(0, kClose, 1, 0, 9)) }, "close sent twice"},
 		{"accept twice", func(m *[2][]Msg) { m[1] = append(m[1], mk(1, kAccept, 1, 5, 9)) }, "accepted twice"},
 		{"open wrong parity", func(m *[2][]Msg) { m[0][0].ID = 2 }, "receiver's parity"},
